@@ -140,6 +140,28 @@ impl Scenario for C18 {
                 let lg_k = (cfg.a as u8).clamp(4, 21);
                 let k = 1usize << lg_k;
                 let mut sk = HllSketch::new(lg_k, hll_type(cfg.b));
+                if lg_k >= 8 && cfg.seed % 16 == 0 {
+                    // the stream continues a sketch restored from a foreign writer's coupon SET image: one
+                    // holding exactly the largest count a set may hold (or one fewer), in the early layout
+                    // whose lgArr byte is zero (seed bit 4) or in the current one
+                    let full = 3 * (k / 8) / 4;
+                    let n = full - (cfg.seed >> 5) as usize % 2;
+                    let mut r = Rng::new(cfg.seed);
+                    let mut set = std::collections::BTreeSet::new();
+                    while set.len() < n {
+                        set.insert(((1 + r.geometric(30)) << 26) | (r.next_u32() & 0x3ff_ffff));
+                    }
+                    let list: Vec<u32> = set.into_iter().collect();
+                    let mut img = crate::speccodec::hll::encode(lg_k, (cfg.b % 3) as u8, 1, &list, &[], false, 0.0, crate::speccodec::hll::Layout::Compact);
+                    if cfg.seed >> 4 & 1 == 1 {
+                        img[4] = 0;
+                    }
+                    sk = match lib_call("HllSketch::deserialize(foreign set image)", || HllSketch::deserialize(&img))? {
+                        Ok(s) => s,
+                        Err(e) => return Err(Violation::new("C18.hll_foreign_set_rejected", format!("valid SET image with {n} coupons at lg_k {lg_k} rejected: {e}"))),
+                    };
+                    st.probe("hll_stream_continues_restored_set");
+                }
                 let mut measure = |sk: &HllSketch, offered: u64, st: &mut RunStats| -> Result<(), Violation> {
                     let img = lib_call("HllSketch::serialize", || sk.serialize())?;
                     st.lib_calls += 1;
